@@ -7,9 +7,9 @@ INV = ["OneRecordPerTasking", "NoRecordWithoutTasking", "PointingReflectsTasking
 PROPS = ["NonInterference", "CommitAtomic"]
 def cfg(name, T, S, E="E1", ET="AllT", ES="AllS", pol="PolGreedy", nsteps=2, out=1, est=True, ser=False,
         reset=False, squared=False, keep=False, prio_all=False, prune_eq=False, events="NoEvents", dt=1,
-        IT=None, IS=None, faults=False, partial=False, out_dt=None, interf=False):
+        IT=None, IS=None, faults=False, partial=False, out_dt=None, interf=False, live=False):
     B = lambda b: "TRUE" if b else "FALSE"
-    txt = f"""SPECIFICATION Spec
+    txt = f"""SPECIFICATION {'FairSpec' if live else 'Spec'}
 CONSTANTS
   Targets <- {T}
   Sensors <- {S}
@@ -33,7 +33,7 @@ CONSTANTS
   PruneKeepsEqual = {B(prune_eq)}
   PartialCommit = {B(partial)}
   UpdateTouchesTruth = {B(interf)}
-""" + "".join(f"INVARIANT {i}\n" for i in INV) + "".join(f"PROPERTY {p}\n" for p in PROPS)
+""" + "".join(f"INVARIANT {i}\n" for i in INV) + "".join(f"PROPERTY {p}\n" for p in PROPS + (["RunCompletes"] if live else []))
     Path(__file__).resolve().parent.parent.joinpath("spec", f"MCResonaate_{name}.cfg").write_text(txt)
 cfg("greedy22", "T2", "S2")
 cfg("munkres22", "T2", "S2", pol="PolMunkres")
@@ -61,3 +61,7 @@ cfg("out_nonmultiple", "T1", "S1", nsteps=6, dt=2, out_dt=3, faults=True)
 cfg("out_faults_events", "T2", "S2", IT="T1", nsteps=3, dt=3, events="AddRemove", out_dt=6, faults=True)
 cfg("coded_partialcommit", "T1", "S1", nsteps=2, faults=True, partial=True)
 cfg("coded_interference", "T1", "S1", nsteps=2, interf=True)
+cfg("live_events", "T2", "S2", E="E2", ET="SplitT", ES="SplitS", pol="PolMixed", nsteps=3, dt=3, events="Durations", live=True)
+cfg("live_faults", "T1", "S1", nsteps=3, out=2, faults=True, live=True)
+cfg("live_addremove", "T2", "S2", IT="T1", nsteps=3, dt=3, events="AddRemove", out=2, live=True)
+cfg("coded_prio_stuck", "T2", "S2", E="E2", ET="SplitT", ES="SplitS", pol="PolMixed", nsteps=3, dt=3, events="Durations", prio_all=True, live=True)
